@@ -446,7 +446,11 @@ func (tr *fnTrans) storeTo(l *Loc, v Term, pos token.Pos) {
 // ---------- function translation ----------
 
 func newFnTrans(v *verifier, fn *ssa.Function, c *Contract, pre *fnTrans) *fnTrans {
-	tr := &fnTrans{v: v, fn: fn, key: fnKey(fn), c: c,
+	key := "spec"
+	if fn != nil {
+		key = fnKey(fn)
+	}
+	tr := &fnTrans{v: v, fn: fn, key: key, c: c,
 		vals: map[ssa.Value]Term{}, locs: map[ssa.Value]*Loc{}, tuples: map[ssa.Value][]Term{},
 		maps: map[string]heapInfo{}, heap: map[string]string{},
 		outHeap: map[*ssa.BasicBlock]map[string]string{}, outAlloc: map[*ssa.BasicBlock]string{},
